@@ -275,6 +275,8 @@ class Env:
         self.call_models = {}                 # symbol -> fn(ex, st, insn) -> None | terminal
         self.symvals = {}                     # symbol name -> BV64 constant
         self.tld_store_hook = None            # fn(ex, st, off, val, n) called before a store to the thread block
+        self.load_hook = None                 # fn(ex, st, addr, n) -> term | None: overrides a heap load (C09b)
+        self.store_hook = None                # fn(ex, st, addr, val, n): observes a heap store (C09b)
         self.stack_limit = z3.BitVec("stack_limit", 64)
         self.tlab_top = z3.BitVec("tlab_top", 64)
         self.tlab_end = z3.BitVec("tlab_end", 64)
@@ -340,6 +342,7 @@ class State:
         self.steps = 0
         self.trace = []
         self.hint = None
+        self.cur = None
         self.regions = list(env.regions)
         # return address slot of the outermost frame
         self.stack.write(0, BV(CODE_BASE, 64), 8)
@@ -555,6 +558,10 @@ class Explorer:
             f, o = entries[k]
             return self.token(f, o)
         st.events.append(("load", addr, n))
+        if self.env.load_hook is not None:
+            v = self.env.load_hook(self, st, addr, n)
+            if v is not None:
+                return v
         return simp(heap_load(st.heap, addr, n))
 
     def _table_of(self, addr):
@@ -589,6 +596,8 @@ class Explorer:
             st.events.append(("tld_store", x, val, n))
         else:
             st.events.append(("store", addr, val, n))
+            if self.env.store_hook is not None:
+                self.env.store_hook(self, st, addr, val, n)
             st.heap = heap_store(st.heap, addr, val, n)
 
     def opsize(self, insn, w, op):
@@ -1124,6 +1133,7 @@ class Explorer:
                                 st.cond.append(nc)
                         if dead:
                             break
+                st.cur = insn
                 try:
                     r = self.step(st, insn)
                 except CaseSplit as cs:
